@@ -139,6 +139,10 @@ func (w *World) probe(note string) {
 		Names: names, Note: note, Call: w.inFlight(), Open: w.syncOpen()}
 	e.States = w.Cli.Mach.ActiveStates(nil)
 	e.Tracked = w.Srv.Mach.ActiveStates(nil)
+	if nm := w.Cli.NetMach; nm != nil {
+		e.MAct = nm.ActiveStates(nil)
+	}
+	e.SAct = w.Src.ActiveStates(nil)
 	w.log(e)
 }
 
